@@ -97,8 +97,9 @@ def run(tier, seed):
                     vio.append({"what": f"only some arrays of tensor(s) {st['partial']} were freed after step {k + 1} of {acts}",
                                 "key": {"clause": "partially-freed"}, "check": "c13", "case": h})
                     break
-                if st["freed"] != want:
-                    early = sorted(set(st["freed"]) - set(want))
+                maybe = set(a.get("maybe", []))   # referenced only by items() iterators in flight: either is allowed
+                if not (set(want) <= set(st["freed"]) <= set(want) | maybe):
+                    early = sorted(set(st["freed"]) - set(want) - maybe)
                     late = sorted(set(want) - set(st["freed"]))
                     clause = "freed-while-referenced" if early else "not-freed-after-last-reference"
                     vio.append({"what": f"{clause}: after step {k + 1} ({a['act']} {a['n']} {a['m']}) of {acts}: freed tensors {st['freed']}, specification {want}",
@@ -111,8 +112,9 @@ def run(tier, seed):
                             "key": {"clause": "leak"}, "check": "c13", "case": h})
     cov = {"states": states, "transitions": trans, "traces_validated_against_impl": replayed, "evaluations": steps_checked,
            "distinct_nontrivial": sum(1 for h in hists if any(a["freed"] for a in h["hist"])),
-           "rule": "Ownership.tla histories over {evaluate sparse/dense/scalar, evaluate_with, alias, struct_ref, read, "
-                   "pickle, del, collect}: exhaustive to the stated length with 2 names, -simulate longer with 3 names; "
+           "rule": "Ownership.tla histories over {evaluate sparse/dense/scalar/empty/reordered, evaluate_with, alias, struct_ref, "
+                   "read, iter (items() iterator, also on a temporary Tensor), consume, pickle, del, collect}; released memory "
+                   "is poisoned by the interposer so a read after free yields garbage deterministically: exhaustive to the stated length with 2 names, -simulate longer with 3 names; "
                    "each replayed under the malloc/free interposer with the freed set compared after every action. "
                    "Non-trivial = a history in which some tensor's arrays must be freed before the end.",
            "samples": [h["hist"] for h in hists[:2]], "histories": len(hists), "bounds": PARAMS[tier],
